@@ -50,8 +50,21 @@ fn main() {
         r.observe("flushes-judged", flushes);
         r.observe("flush-item-pairs-judged", items);
         // which racy situations did completed flushes actually meet?
+        let recv_points: Vec<(u64, emit_batcher::verif::Point)> = h.points.iter().filter(|p| p.1 == ROLE_RECV && window_of(p.2).is_some()).map(|p| (p.0, p.2)).collect();
         for f in h.flushes.iter().filter(|f| f.done.is_some()) {
             let d = f.done.unwrap();
+            // the receiver's last scheduling point before the request
+            let k = recv_points.partition_point(|p| p.0 < f.req);
+            if k > 0 {
+                let w = match window_of(recv_points[k - 1].1) {
+                    Some(W_SWAP) => "receiver-about-to-swap",
+                    Some(W_TAKEN) => "between-swap-out-and-on_batch-or-during-on_batch",
+                    Some(W_RETRY) => "retry-wait",
+                    Some(W_NOTIFY) => "last-attempt-done-watchers-not-yet-notified",
+                    _ => "idle-wait",
+                };
+                r.observe(&format!("flushes:requested-after-receiver-point:{}", w), 1);
+            }
             let in_flight_at_request = h.batches.iter().any(|b| b.call < f.req && b.ret > f.req);
             let retry_pending_at_request = h.batches.windows(2).any(|w| w[0].out == Out::Retry && w[0].rem.as_ref().map(|x| !x.is_empty()).unwrap_or(false) && w[0].ret < f.req && w[1].call > f.req);
             if in_flight_at_request {
@@ -75,7 +88,7 @@ fn main() {
         if !h.clears().is_empty() {
             r.observe("histories:exercised-truncation", 1);
         }
-        if r.wants_sample() && i % 7 == 3 && flushes > 0 {
+        if r.wants_sample() && flushes > 1 && h.batches.len() >= 3 && h.sends.len() >= 8 && h.sends.len() <= 80 {
             r.sample(|| sample_json(&h));
         }
     };
